@@ -74,7 +74,7 @@ Step(r) ==
     CASE r.ev = "Connect"    -> Connect(r.a.p)
       [] r.ev = "Disconnect" -> Disconnect(r.a.p)
       [] r.ev = "Advance"    -> Advance(r.a.d)
-      [] r.ev = "Refresh"    -> RefreshTick(Oracle(r), {})
+      [] r.ev = "Refresh"    -> RefreshTick(Oracle(r), {}, {})
       [] r.ev = "LastState"  -> RecvLastState(r.a.p, [b |-> r.a.b, ok |-> r.a.ok], Oracle(r))
       [] r.ev = "Proof"      -> RecvProof(r.a.p, MsgOf(r.a), Oracle(r))
       [] r.ev = "Restart"    -> Restart
